@@ -130,7 +130,7 @@ Qed.
 
 (* ---------------------------------------------------------------- the shipped descriptors *)
 Lemma shipped_wf :
-  forallb (fun e => wf_desc (snd e) && consistent (snd e)) PidDescs.all = true.
+  forallb (fun e => wf_desc (snd e) && consistent (snd e) && forallb nonzero_block (snd e)) PidDescs.all = true.
 Proof. vm_compute. reflexivity. Qed.
 
 Lemma shipped_store_consistent :
@@ -175,9 +175,9 @@ Proof.
       cbn [orb] in Hg. destruct (t =? 0) eqn:Et; [discriminate|]. now apply N.eqb_neq.
 Qed.
 
-Lemma gcalc_no_divzero tc fs : gtok_ok fs = true -> gcalc tc fs <> GDivZero.
+Lemma gcalc_no_divzero tc fs : gcalc tc fs <> GDivZero.
 Proof.
-  unfold gtok_ok, gcalc. intros Hok.
+  unfold gcalc.
   destruct (tc <? _); [discriminate|].
   destruct (filter is_group fs) as [|g r] eqn:Eg; [destruct (_ =? _); discriminate|].
   destruct (gloop (g :: r) _) as [s|a] eqn:El.
@@ -189,12 +189,7 @@ Proof.
     destruct x; try (now apply (IH _ E)).
     destruct (fixed_size (FGroup mn mx fs0)); [now apply (IH _ E)|].
     destruct (1 <? g_cnt a0 + 1); [injection E as <-; discriminate|now apply (IH _ E)].
-  - apply (gloop_tok _ _ _ Hok) in El; [|left; reflexivity].
-    destruct (tc <? g_req a); [discriminate|].
-    destruct (g_cnt a =? 0) eqn:Ec; [destruct (g_req a =? tc); discriminate|]. apply N.eqb_neq in Ec.
-    destruct (negb (g_mx a =? -1)%Z && _); [discriminate|].
-    destruct (g_tok a =? 0) eqn:Et; [apply N.eqb_eq in Et; destruct El; contradiction|].
-    destruct (negb ((tc - g_req a) mod g_tok a =? 0)); discriminate.
+  - repeat match goal with |- context [if ?c then _ else _] => destruct c end; discriminate.
 Qed.
 
 Lemma shipped_gtok : forallb (fun e => gtok_ok (snd e)) PidDescs.all = true.
@@ -271,22 +266,22 @@ Proof.
   - destruct Hin as [->|Hin]; [congruence|]. now apply IH.
 Qed.
 
-Definition keq_value (a b : pid_entry) : bool := (fst (fst a) =? fst (fst b)) && (snd (fst a) =? snd (fst b)).
-Definition keq_name (a b : pid_entry) : bool := (fst (fst a) =? fst (fst b)) && list_eqb (snd a) (snd b).
 Lemma shipped_nodup_value : nodupb keq_value PidDescs.pids = true.
 Proof. vm_compute. reflexivity. Qed.
 Lemma shipped_nodup_name : nodupb keq_name PidDescs.pids = true.
 Proof. vm_compute. reflexivity. Qed.
 
-Lemma shipped_lookup_pid man pid :
-  match find_pid PidDescs.pids man pid with
-  | Some e => In e PidDescs.pids /\ fst (fst e) = man /\ snd (fst e) = pid /\
-              forall e', In e' PidDescs.pids -> fst (fst e') = man -> snd (fst e') = pid -> e' = e
-  | None => forall e', In e' PidDescs.pids -> ~ (fst (fst e') = man /\ snd (fst e') = pid)
+Lemma lookup_pid_unique tbl man pid :
+  nodupb keq_value tbl = true ->
+  match find_pid tbl man pid with
+  | Some e => In e tbl /\ fst (fst e) = man /\ snd (fst e) = pid /\
+              forall e', In e' tbl -> fst (fst e') = man -> snd (fst e') = pid -> e' = e
+  | None => forall e', In e' tbl -> ~ (fst (fst e') = man /\ snd (fst e') = pid)
   end.
 Proof.
-  pose proof shipped_nodup_value as Hc. pose proof shipped_nodup_name as Hcn.
-  unfold find_pid. destruct (find _ PidDescs.pids) as [e|] eqn:E.
+  intros Hc. pose proof Hc as Hcn.
+  unfold find_pid.
+  match goal with |- context [find ?p tbl] => destruct (find p tbl) as [e|] eqn:E end.
   - pose proof (find_some _ _ E) as [Hin Hp]. apply andb_prop in Hp as [K1 K2].
     apply N.eqb_eq in K1, K2. repeat split; try assumption.
     intros e' Hin' M P.
@@ -298,15 +293,17 @@ Proof.
     rewrite M, P, !N.eqb_refl in X. discriminate.
 Qed.
 
-Lemma shipped_lookup_name man name :
-  match find_name PidDescs.pids man name with
-  | Some e => In e PidDescs.pids /\ fst (fst e) = man /\ snd e = name /\
-              forall e', In e' PidDescs.pids -> fst (fst e') = man -> snd e' = name -> e' = e
-  | None => forall e', In e' PidDescs.pids -> ~ (fst (fst e') = man /\ snd e' = name)
+Lemma lookup_name_unique tbl man name :
+  nodupb keq_name tbl = true ->
+  match find_name tbl man name with
+  | Some e => In e tbl /\ fst (fst e) = man /\ snd e = name /\
+              forall e', In e' tbl -> fst (fst e') = man -> snd e' = name -> e' = e
+  | None => forall e', In e' tbl -> ~ (fst (fst e') = man /\ snd e' = name)
   end.
 Proof.
-  pose proof shipped_nodup_value as Hc. pose proof shipped_nodup_name as Hcn.
-  unfold find_name. destruct (find _ PidDescs.pids) as [e|] eqn:E.
+  intros Hc. pose proof Hc as Hcn.
+  unfold find_name.
+  match goal with |- context [find ?p tbl] => destruct (find p tbl) as [e|] eqn:E end.
   - pose proof (find_some _ _ E) as [Hin Hp]. apply andb_prop in Hp as [H2 H3].
     apply N.eqb_eq in H2. apply list_eqb_eq in H3. repeat split; try assumption.
     intros e' Hin' M P.
@@ -317,6 +314,30 @@ Proof.
     + apply andb_true_intro. split; [apply N.eqb_eq|apply list_eqb_eq]; assumption.
   - intros e' Hin [M P]. pose proof (find_none _ _ E e' Hin) as X. cbn beta in X.
     rewrite M, N.eqb_refl in X. apply (proj2 (list_eqb_eq _ _)) in P. rewrite P in X. discriminate.
+Qed.
+
+Lemma shipped_lookup_pid man pid :
+  match find_pid PidDescs.pids man pid with
+  | Some e => In e PidDescs.pids /\ fst (fst e) = man /\ snd (fst e) = pid /\
+              forall e', In e' PidDescs.pids -> fst (fst e') = man -> snd (fst e') = pid -> e' = e
+  | None => forall e', In e' PidDescs.pids -> ~ (fst (fst e') = man /\ snd (fst e') = pid)
+  end.
+Proof. exact (lookup_pid_unique PidDescs.pids man pid shipped_nodup_value). Qed.
+Lemma shipped_lookup_name man name :
+  match find_name PidDescs.pids man name with
+  | Some e => In e PidDescs.pids /\ fst (fst e) = man /\ snd e = name /\
+              forall e', In e' PidDescs.pids -> fst (fst e') = man -> snd e' = name -> e' = e
+  | None => forall e', In e' PidDescs.pids -> ~ (fst (fst e') = man /\ snd e' = name)
+  end.
+Proof. exact (lookup_name_unique PidDescs.pids man name shipped_nodup_name). Qed.
+
+Lemma shipped_loader_rules :
+  loader_rules PidDescs.MANUFACTURER_PID_MIN PidDescs.MANUFACTURER_PID_MAX PidDescs.pids = true.
+Proof. vm_compute. reflexivity. Qed.
+Lemma loader_rules_nodup lo hi tbl :
+  loader_rules lo hi tbl = true -> nodupb keq_value tbl = true /\ nodupb keq_name tbl = true.
+Proof.
+  unfold loader_rules. intros H. apply andb_prop in H as [H _]. apply andb_prop in H. exact H.
 Qed.
 
 (* ---------------------------------------------------------------- overrides *)
